@@ -84,6 +84,8 @@ def first_bytes(cls, ser, rng):
     if cls in types:
         # a message of another type, carrying either a call or a perfectly valid handshake payload
         return L.patch(inv if rng.random() < 0.5 else valid, 6, "!B", types[cls])
+    if cls == "stalled_partial":
+        return valid[:rng.choice([1, 5, 7, 20, 39, 41, len(valid) - 1])]
     if cls == "type_partial":
         whole = L.patch(inv, 6, "!B", rng.choice([protocol.MSG_INVOKE, protocol.MSG_PING, protocol.MSG_RESULT]))
         return whole[:rng.choice([40, 41, len(whole) - 1, (40 + len(whole)) // 2])]
@@ -172,18 +174,20 @@ def run_scenarios(scens, servertype, timeout, seed, validator_install="class"):
             rc = lab.raw()
             lab.log.append({"e": "First", "c": rc.cid, "accept": scen["accept"], "mustreason": scen["mustreason"]})
             data = first_bytes(scen["first"], ser, rng)
-            for i, it in enumerate(scen["pipe"] if scen["first"] != "type_partial" else []):
+            for i, it in enumerate(scen["pipe"] if scen["first"] not in ("type_partial", "stalled_partial") else []):
                 data += pipe_bytes(it, ser, 10 + i)
             rc.send(data)
             if scen["first"] in ("truncated", "empty"):
                 rc.close()          # a message cut short by a disconnect
+            if scen["first"] == "stalled_partial":
+                sc.sleep(timeout + 1.0)         # silence: the daemon's own timeout must end its wait, and it must say so
             if scen["first"] == "type_partial":
                 import socket as _socket
                 rc.sock.shutdown(_socket.SHUT_WR)       # nothing more will come; the peer still listens
             hang = False
             try:
                 sc.quiesce()
-                if not (scen["first"] == "short_foreign" and not scen["pipe"]) and scen["first"] != "type_partial":
+                if not (scen["first"] == "short_foreign" and not scen["pipe"]) and scen["first"] not in ("type_partial", "stalled_partial"):
                     # whatever the peer sends next (if it can still send) must not be executed either
                     # (a peer that has sent less than a header of something else just waits: it must be turned away as it is)
                     rc.send(pipe_bytes("invoke_target", ser, 50) + pipe_bytes("invoke_daemon", ser, 51))
@@ -311,12 +315,17 @@ def run(ctx):
                 jobs[st].append(dict(s, ser=ser, server=st))
     traces, metas = [], []
     for st in ("multiplex", "thread"):
-        for timeout in ((0.0,) if ctx.quick else (0.0, 3.0)):
-            js = jobs[st] if timeout == 0.0 else jobs[st][::5]
+        for timeout in (0.0, 3.0):
+            if timeout == 0.0:
+                js = [j for j in jobs[st] if j["first"] != "stalled_partial"]
+            elif ctx.quick:
+                js = [j for j in jobs[st] if j["first"] == "stalled_partial"]
+            else:
+                js = [j for n, j in enumerate(jobs[st]) if n % 5 == 0 or j["first"] == "stalled_partial"]
             traces += run_scenarios(js, st, timeout, ctx.seed)
             metas += [dict(j, timeout=timeout) for j in js]
         # the validator installed on the daemon object after construction (the class keeps the default that accepts everybody)
-        js = [j for j in jobs[st] if j["first"].startswith("connect")][::ctx.pick(3, 1)]
+        js = [j for j in jobs[st] if j["first"].startswith("connect") and j["first"] != "stalled_partial"][::ctx.pick(3, 1)]
         traces += run_scenarios(js, st, 0.0, ctx.seed, validator_install="instance")
         metas += [dict(j, timeout=0.0, install="instance") for j in js]
     for st in ("multiplex", "thread"):
